@@ -62,7 +62,7 @@ def cq_case(c):
 
 def cq_obs(o):
     ev = "; ".join(("EInit %d %d" if e[0] == "init" else "EInv %d %d") % (e[1], e[2]) for e in o["events"])
-    out = "None" if o["outcome"][0] == "ok" else ("(Some %d)" % o["outcome"][1] if o["outcome"][0] == "violation" else "(Some 4999)")
+    out = "None" if o["outcome"][0] == "ok" else ("(Some %d)" % o["outcome"][1] if o["outcome"][0] == "violation" else "(Some 999)")
     return "[%s]" % ev, out
 
 
